@@ -256,6 +256,7 @@ package channel
 
 //@ func (*Channel).Open [C07 C10 C11]
 //@   requires RI(c.Q) && c.Errs != c.Q.depthChan
+//@   ensures #queue-invariant-kept RI(c.Q)
 //@   flows [C11] #login-password-goes-only-to-the-login-functions authData.Password only to AuthenticateSSH#1.arg0, AuthenticateTelnet#1.arg1
 //@   flows [C11] #passphrase-goes-only-to-the-login-function authData.PrivateKeyPassPhrase only to AuthenticateSSH#1.arg1
 //@   ensures #failed-open-closes-the-transport result != nil && implOpened ==> implClosed
